@@ -116,6 +116,7 @@ def run(F, R, ctx):
     bulk_discard_rule(F, R)
     pop_count_rule(F, R)
     pop_count_guard_rule(F, R)
+    nested_restore_rule(F, R)
     wind_rules(F, R)
 
     # close_marks itself must upgrade the weak mark and close it
@@ -477,6 +478,10 @@ def pop_count_rule(F, R):
         for i, b in pushes:
             if i not in after_pop:
                 continue
+            # a frame that is put back before it was counted down (the push is reachable from a pop without passing any
+            # decrement) was never taken out of the count
+            if all(i not in fn.reachable_from(fn.succ(d), avoid=pops) for d in decs):
+                continue
             n += 1
             others = [j for j in order if j != i]
             ok = bool(incs) and fn.every_path_passes_from(fn.succ(i), list(fn.returns()) + pops + others, incs)[0]
@@ -534,3 +539,33 @@ def pop_count_guard_rule(F, R):
                    "and invoked from inside it — the counter underflows" % fn.short(), fn.loc(fn.blocks[d].get("line")),
                    sample=True)
     R.floor("C08.h", "frame-popping loops that count pop_count down", n, 3)
+
+
+def nested_restore_rule(F, R):
+    R.rule("C08.i", "a nested run always gives its caller's control state back: in "
+                    "VmCore::call_with_instructions_and_reset_state every path from the nested dispatch (the call of vm()) to "
+                    "a return passes through the stores that restore VmCore.pop_count, VmCore.ip and VmCore.instructions "
+                    "(saved on entry) — on the error paths as well: an error that leaves the run with the nested pop_count "
+                    "still in place makes the caller's unwind loop stop before it has looked at the caller's handlers, and a "
+                    "frame popped on the way out belongs to the caller")
+    fn = F.one(r"^steel::steel_vm::vm::\{impl VmCore\}::call_with_instructions_and_reset_state$")
+    vms = fn.call_blocks(r"\{impl VmCore\}::vm$")
+    if not vms:
+        raise CheckError("anchor lost: call_with_instructions_and_reset_state no longer runs vm()")
+    for field in ("pop_count", "ip", "instructions"):
+        stores = []
+        for i, blk in enumerate(fn.blocks):
+            if blk.get("c"):
+                continue
+            for e in blk["e"]:
+                if e[0] == "st" and re.search(r"\(\*_1\)\.%s$" % field, e[1]):
+                    stores.append(i)
+                if e[0] == "fld" and e[1] == "VmCore" and e[2] == field and e[3][0] == "w":
+                    stores.append(i)
+        # restoring stores: those not on a cycle with vm() (the loop body also writes ip / instructions while unwinding)
+        restoring = [s_ for s_ in stores if not any(v in fn.reachable_from(fn.succ(s_)) for v in vms)]
+        ok = bool(restoring) and fn.every_path_passes_from([x for v in vms for x in fn.succ(v)], fn.returns(), restoring)[0]
+        R.inst("C08.i", "call_with_instructions_and_reset_state / every exit after vm() restores VmCore.%s" % field, ok,
+               "VmCore::call_with_instructions_and_reset_state can return after the nested vm() run without restoring "
+               "VmCore.%s: an error raised in a callback of a native higher-order procedure leaves the caller with the "
+               "nested run's state, and the enclosing handler is never reached" % field, fn.loc(), sample=True)
